@@ -100,6 +100,11 @@ func loadsStoredCell(v ssa.Value, st *ssa.Store) bool {
 
 func init() {
 	register("C05",
+		Rule{ID: "C05.l", Explain: "shared state under signing and verification (the rules of C20.l and C20.n with this property's entry points): no package-level mutable value is used without a lock, and no object handed back to a sync.Pool is a function's result (the representation R that Verify compares would be overwritten by a concurrent signer).",
+			Run: func(P *Program, R *Report) {
+				packageStateRule(P, R, "C05.l", []string{kCLVerify, "gabi.SignMessageBlock", kCLSign, kCLRandomize}, 1)
+				pooledAndCopiedRule(P, R, "C05.l")
+			}},
 		Rule{ID: "C05.a", Explain: "CLSignature.Verify: accept => E >= 2^(Le-1) and E <= 2^(Le-1)+2^(LePrime-1) were tested with exactly these symbolic bounds, and E.ProbablyPrime(k>=20) was true.",
 			Run: func(P *Program, R *Report) {
 				fn := mustFunc(P, R, "C05.a", kCLVerify)
